@@ -211,7 +211,10 @@ func (m *Manager) AddBinding(mac net.HardwareAddr, ipv4 net.IP) error {
 	if ipv4 != nil {
 		ip4 := ipv4.To4()
 		if ip4 != nil {
-			binding.IPv4Addr = binary.BigEndian.Uint32(ip4)
+			// The kernel program compares this word with ip->saddr, i.e. with
+			// the address bytes as they appear in the frame. Map values are
+			// marshalled in native byte order, so take the bytes as they are.
+			binding.IPv4Addr = binary.NativeEndian.Uint32(ip4)
 			binding.IPv4Valid = 1
 		}
 	}
@@ -320,7 +323,9 @@ func (m *Manager) AddAllowedRange(network *net.IPNet) error {
 
 	key := lpmKey{
 		Prefixlen: uint32(ones),
-		IP:        binary.BigEndian.Uint32(ip4),
+		// address bytes in network order in memory, as the kernel's LPM trie
+		// and the lookup key built from ip->saddr expect
+		IP: binary.NativeEndian.Uint32(ip4),
 	}
 
 	var value uint8 = 1
